@@ -12,8 +12,8 @@ namespace seq {
 using Qentem::SizeT;
 using qsim::LibCall;
 
-enum SubWorld { SW_ARR_SIZET = 0, SW_ARR_POD, SW_ARR_STR, SW_ARR_ARR, SW_STRING, SW_STREAM, SW_VIEW, SW_MEM, SW_COUNT };
-static const char *sw_name[] = {"arr-sizet", "arr-pod", "arr-str", "arr-arr", "string", "stream", "view", "mem"};
+enum SubWorld { SW_ARR_SIZET = 0, SW_ARR_POD, SW_ARR_STR, SW_ARR_ARR, SW_STRING, SW_STREAM, SW_VIEW, SW_MEM, SW_ARR_NODE, SW_COUNT };
+static const char *sw_name[] = {"arr-sizet", "arr-pod", "arr-str", "arr-arr", "string", "stream", "view", "mem", "arr-node"};
 
 struct Ctx {
     const char *sub{""};
@@ -393,6 +393,173 @@ struct ArrW {
             default: break;
         }
         if (a.Size() == a.Capacity() && a.Size() != 0) qsim::probe("seq.array.full");
+    }
+};
+
+// ------------------------------------------------------------------------------------------------
+// Array<T> with a recursive owning T: arrays nested in their own elements, assignment from a descendant
+// ------------------------------------------------------------------------------------------------
+struct RNode {
+    SizeT                 id{0};
+    Qentem::Array<RNode>  kids;
+};
+struct MNode {
+    uint64_t           id{0};
+    std::vector<MNode> kids;
+};
+enum NodeOp { N_ADD = 0, N_ASSIGN_COPY_FROM_CHILD, N_ASSIGN_MOVE_FROM_CHILD, N_DROP, N_CLEAR, N_COPY_ROOT, N_MOVE_ROOT, N_MOVE_APPEND_CHILD, N_COUNT };
+static const char *node_op_name[] = {"add", "assign-copy-from-child", "assign-move-from-child", "drop", "clear", "copy-root", "move-root", "move-append-child"};
+
+struct NodeW {
+    using Arr              = Qentem::Array<RNode>;
+    static constexpr int K = 2;
+    ArenaObj<Arr>        root[K];
+    std::vector<MNode>   model[K];
+    Ctx                 &cx;
+    explicit NodeW(Ctx &c) : cx(c) {
+        LibCall lc;
+        for (int i = 0; i < K; i++) new (root[i].p) Arr();
+    }
+    void teardown() {
+        LibCall lc;
+        for (int i = 0; i < K; i++) root[i]->~Arr();
+    }
+    static size_t count(const std::vector<MNode> &m) {
+        size_t n = m.size();
+        for (auto &k : m) n += count(k.kids);
+        return n;
+    }
+    bool cmp(const Arr &a, const std::vector<MNode> &m, int depth) {
+        if (a.Size() != m.size() || a.Capacity() < a.Size()) {
+            cx.fail("size", "nested array size differs from the model at depth " + std::to_string(depth));
+            return false;
+        }
+        if (m.empty()) return true;
+        if (!qsim::readable(a.First(), m.size() * sizeof(RNode))) {
+            cx.fail("storage", "nested array storage is not a live block");
+            return false;
+        }
+        for (size_t i = 0; i < m.size(); i++) {
+            if (a.First()[i].id != (SizeT)m[i].id) {
+                cx.fail("element", "element id differs from the model at depth " + std::to_string(depth));
+                return false;
+            }
+            qsim::obs(m[i].id * 31 + (uint64_t)depth);
+            if (!cmp(a.First()[i].kids, m[i].kids, depth + 1)) return false;
+        }
+        return true;
+    }
+    void check() {
+        for (int i = 0; i < K && !cx.failed; i++) cmp(*root[i], model[i], 0);
+    }
+    Arr *nav(int r, uint64_t sel, std::vector<MNode> *&m) {
+        Arr *a = root[r].p;
+        m      = &model[r];
+        for (int level = 0; level < 3; level++) {
+            uint64_t d = sel % 8;
+            sel /= 8;
+            if (m->empty()) break;
+            size_t c = (size_t)(d % (m->size() + 1));
+            if (c == m->size()) break;
+            a = &a->Storage()[c].kids;
+            m = &(*m)[c].kids;
+        }
+        return a;
+    }
+    void exec(const Op &op) {
+        int                 kind = (int)((uint64_t)op.kind % N_COUNT);
+        int                 j    = (int)((uint64_t)op.a[0] % K);
+        uint64_t            tok  = (uint64_t)op.a[3];
+        cx.opname                = node_op_name[kind];
+        std::vector<MNode> *m    = nullptr;
+        Arr                *a    = nav(j, (uint64_t)op.a[1], m);
+        switch (kind) {
+            case N_ADD: {
+                if (count(model[0]) + count(model[1]) > 60) break;
+                size_t n = 1 + (size_t)(tok % 3);
+                for (size_t i = 0; i < n; i++) {
+                    {
+                        LibCall lc;
+                        RNode   nn;
+                        nn.id = (SizeT)(tok + i);
+                        *a += static_cast<RNode &&>(nn);
+                    }
+                    MNode mn;
+                    mn.id = (SizeT)(tok + i);
+                    m->push_back(mn);
+                }
+                break;
+            }
+            case N_ASSIGN_COPY_FROM_CHILD:
+            case N_ASSIGN_MOVE_FROM_CHILD: {
+                if (m->empty()) break;
+                size_t c = (size_t)(tok % m->size());
+                // optionally one level deeper: a grandchild's array
+                Arr                *src = &a->Storage()[c].kids;
+                std::vector<MNode> *sm  = &(*m)[c].kids;
+                if ((op.a[4] & 1) && !sm->empty()) {
+                    size_t g = (size_t)((tok / 7) % sm->size());
+                    src      = &src->Storage()[g].kids;
+                    sm       = &(*sm)[g].kids;
+                }
+                std::vector<MNode> taken = *sm;
+                qsim::probe("seq.array.assign-from-descendant");
+                {
+                    LibCall lc;
+                    if (kind == N_ASSIGN_COPY_FROM_CHILD)
+                        *a = static_cast<const Arr &>(*src);
+                    else
+                        *a = static_cast<Arr &&>(*src);
+                }
+                *m = taken;
+                break;
+            }
+            case N_MOVE_APPEND_CHILD: {
+                // a += Move(b) where b is an array of the OTHER root (no aliasing)
+                std::vector<MNode> *om = nullptr;
+                Arr                *o  = nav(1 - j, (uint64_t)op.a[2], om);
+                {
+                    LibCall lc;
+                    *a += static_cast<Arr &&>(*o);
+                }
+                m->insert(m->end(), om->begin(), om->end());
+                om->clear();
+                break;
+            }
+            case N_DROP: {
+                size_t d = m->empty() ? 0 : (size_t)(tok % (m->size() + 1));
+                {
+                    LibCall lc;
+                    a->Drop((SizeT)d);
+                }
+                m->resize(m->size() - d);
+                break;
+            }
+            case N_CLEAR: {
+                LibCall lc;
+                if (tok & 1)
+                    a->Clear();
+                else
+                    a->Reset();
+                m->clear();
+                break;
+            }
+            case N_COPY_ROOT: {
+                if (count(model[0]) + count(model[1]) > 60) break;
+                LibCall lc;
+                *root[j] = static_cast<const Arr &>(*root[1 - j]);
+                model[j] = model[1 - j];
+                break;
+            }
+            case N_MOVE_ROOT: {
+                LibCall lc;
+                *root[j] = static_cast<Arr &&>(*root[1 - j]);
+                model[j] = model[1 - j];
+                model[1 - j].clear();
+                break;
+            }
+            default: break;
+        }
     }
 };
 
@@ -1641,7 +1808,7 @@ static void generate(Plan &plan, uint64_t seed, int tier) {
     uint64_t emphasis = cfg.next();
     for (size_t i = 0; i < nops; i++) {
         Op op;
-        int span = sub <= SW_ARR_ARR ? A_COUNT : sub == SW_STRING ? S_COUNT : sub == SW_STREAM ? T_COUNT : sub == SW_VIEW ? V_COUNT : 2;
+        int span = sub <= SW_ARR_ARR ? A_COUNT : sub == SW_STRING ? S_COUNT : sub == SW_STREAM ? T_COUNT : sub == SW_VIEW ? V_COUNT : sub == SW_ARR_NODE ? N_COUNT : 2;
         do {
             op.kind = (int)ops.below((uint64_t)span);
         } while (span > 4 && ((emphasis >> (op.kind % 64)) & 1) == 0 && ops.chance(2, 3));
@@ -1650,6 +1817,13 @@ static void generate(Plan &plan, uint64_t seed, int tier) {
         if (ops.chance(1, 4)) op.a[1] = op.a[0]; // self operations on purpose
         op.a[2] = (int64_t)ops.below(64);
         op.a[3] = (int64_t)ops.below(1 << 16);
+        op.a[4] = (int64_t)ops.below(4);
+        if (sub == SW_ARR_NODE) {
+            op.a[0] = (int64_t)ops.below(2);
+            op.a[1] = (int64_t)ops.below(512);
+            op.a[2] = (int64_t)ops.below(512);
+            if (ops.chance(1, 3)) op.kind = N_ADD;
+        }
         if (sub == SW_MEM) {
             op.a[0] = (int64_t)ops.below(32);
             op.a[1] = (int64_t)ops.below(32);
@@ -1701,6 +1875,7 @@ static bool execute(Plan &plan) {
                 else if (width == 2) drive<ViewW<char16_t>>(plan, cx, executed);
                 else drive<ViewW<char32_t>>(plan, cx, executed);
                 break;
+            case SW_ARR_NODE: drive<NodeW>(plan, cx, executed); break;
             default: drive<MemW>(plan, cx, executed); break;
         }
         if (!qsim::run_aborted()) qsim::check_leaks("seq");
